@@ -98,8 +98,10 @@ impl PayloadWriter {
         let current_len = self.current_len();
         if current_len > self.max_payload_len {
             // If the current metric is too long, we need to truncate everything we just wrote to get us back to the end
-            // of the last metric, since the previous parts of the buffer are still valid and could be flushed.
-            self.buf.truncate(self.last_offset());
+            // of the last metric, since the previous parts of the buffer are still valid and could be flushed. The
+            // length placeholder that `prepare_for_write` reserved for this payload stays in place for the next one.
+            let maybe_length_prefix_len = if self.with_length_prefix { 4 } else { 0 };
+            self.buf.truncate(self.last_offset() + maybe_length_prefix_len);
 
             return false;
         }
